@@ -40,12 +40,20 @@ def main():
             cell = "(not run yet)"
         if m.get("undetected_reason") and not hits:
             cell = "not detected — " + m["undetected_reason"]
-        fz = m.get("frozen_harness_before_round2")
+        fz = m.get("frozen_harness_before_round2") or m.get("frozen_harness_before_round3")
         fzc = "" if fz is None else ("detected" if fz.get("detected_by_own_property_check") else "missed (exit %s)" % fz.get("exit"))
         if fz is None and (n.endswith("-a") or n.endswith("-b")):
             fzc = m.get("first_run_note", "detected on first run")
         out.append("| %s | %s | %s | %s | `%s` | %s |" % (n, short(m.get("breaks"), 170).replace("|", "/"), short(m.get("needs_to_manifest"), 150).replace("|", "/"), cell, short(sig, 110).replace("|", "/"), fzc))
     out.append("")
+    rp2 = os.path.join(VERIF, "selftest", "results-mutants-idea-review.json")
+    if os.path.exists(rp2):
+        out.append("#### Mutants written after the idea review (`selftest/mutants-idea-review/`)\n")
+        out.append("| mutant | 104 baseline tests | expected | reported VIOLATION |")
+        out.append("|---|---|---|---|")
+        for r in json.load(open(rp2)):
+            out.append("| %s | %s | %s | %s |" % (r["mutant"], "pass" if r.get("baseline_pass") else ("fail" if "baseline_pass" in r else "-"), ", ".join(r["expected"]), ", ".join(r.get("killed_by", [])) or "**none**"))
+        out.append("")
     rp = os.path.join(VERIF, "selftest", "results-mutants.json")
     if os.path.exists(rp):
         res = json.load(open(rp))
